@@ -85,12 +85,35 @@ fn any_binop_all() -> BinaryOp {{
 NONDOT = [o for o in BINOPS if not o.startswith("Dot")]
 
 
+BINOP_GROUPS = {
+    "arith": ["Add", "Subtract", "Multiply", "Divide", "Modulo", "Power"],
+    "compare": ["Equal", "NotEqual", "Less", "LessEq", "Greater", "GreaterEq"],
+    "logic": ["And", "NaturalAnd", "Or", "NaturalOr", "Coalesce", "Where"],
+    "apply": ["Via", "Into"],
+}
+assert sorted(sum(BINOP_GROUPS.values(), [])) == sorted(NONDOT)
+
+
 def binop_scalar_harness_names():
-    return [f"u_binop_scalar_{o.lower()}" for o in NONDOT]
+    return [f"u_binop_scalar_{g}" for g in BINOP_GROUPS]
 
 
 def binop_scalar_harnesses():
-    return "\n".join(f"binop_scalar_harness!(u_binop_scalar_{o.lower()}, BinaryOp::{o});" for o in NONDOT)
+    """One harness per operator group; inside, the operator is dispatched to CONSTANT operators (one contract call each)."""
+    out = []
+    for g, ops in BINOP_GROUPS.items():
+        arms = "\n".join(f"            {i} => binop_scalar_contract(BinaryOp::{o})," for i, o in enumerate(ops[:-1]))
+        out.append(f"""fn binop_scalar_group_{g}() {{
+    let k: u8 = kani::any();
+    kani::assume(k < {len(ops)});
+    match k {{
+{arms}
+            _ => binop_scalar_contract(BinaryOp::{ops[-1]}),
+    }}
+}}
+binop_scalar_harness!(u_binop_scalar_{g}, binop_scalar_group_{g});
+""")
+    return "\n".join(out)
 
 
 BCAST_OPS = [o for o in NONDOT if o not in ("Via", "Into", "Where")]
@@ -101,10 +124,13 @@ def bcast_harness_names(kind):
 
 
 def bcast_harnesses():
+    """One harness per (block, operator) with a CONSTANT operator: each costs 10-20 CPU minutes (measured), so they
+    run in parallel and only in the thorough tier."""
     out = []
-    for o in BCAST_OPS:
-        out.append(f"bcast_harness!(u_bcast_ls_{o.lower()}, bcast_list_scalar_contract, BinaryOp::{o});")
-        out.append(f"bcast_harness!(u_bcast_ll_{o.lower()}, bcast_list_list_contract, BinaryOp::{o});")
+    for kind, contract in (("ls", "bcast_list_scalar_contract"), ("ll", "bcast_list_list_contract")):
+        for o in BCAST_OPS:
+            out.append(f"fn bcast_{kind}_{o.lower()}() {{ {contract}(BinaryOp::{o}); }}")
+            out.append(f"bcast_harness!(u_bcast_{kind}_{o.lower()}, bcast_{kind}_{o.lower()});")
     return "\n".join(out)
 
 
